@@ -182,6 +182,13 @@ class Ready:
             return ("call", c)
         if c.def_ == REPLACE and c.args and self.key_of(body, c.args[0], c.loc) == key:
             return ("replaced", c)
+        if c.def_ == SWAP and len(c.args) == 2:
+            ka = self.key_of(body, c.args[0], c.loc)
+            kb = self.key_of(body, c.args[1], c.loc)
+            if ka == key:
+                return ("swapped", c, kb)
+            if kb == key:
+                return ("swapped", c, ka)
         return None
 
     # ------------------------------------------------------------------ the search
@@ -212,8 +219,11 @@ class Ready:
                 if ev is None:
                     stack.append(p)
                     continue
-                kind, c = ev
-                if kind == "call":
+                kind, c = ev[0], ev[1]
+                if kind == "swapped":
+                    # before the swap this instance's value lived in the other place
+                    problems += self.state_at(body, p, ev[2], seen | {(id(body), b2, key) for b2 in visited}, depth + 1)
+                elif kind == "call":
                     problems.append(("recall", c.where(),
                                      "instance is called again (previous call at %s) with no readiness observed in between"
                                      % c.where()))
